@@ -622,7 +622,7 @@ struct World
         }
         else if (op == "PEMPTY")
             pk[N(0)] = Packet();
-        else if (op == "ENC" || op == "ENC1" || op == "ENCP")
+        else if (op == "ENC" || op == "ENC1" || op == "ENCP" || op == "ENCQ")
         {
             DataContext ctx{static_cast<size_t>(N(0)), static_cast<size_t>(N(1))};
             if (op == "ENC1")
@@ -641,14 +641,20 @@ struct World
                     v.push_back(pk[l.n[i]]);
                 frames = enc->encode(v.begin(), v.end(), ctx);
             }
-            for (auto& f : frames)
-                out << "F " << hex(f) << "\n";
+            if (op != "ENCQ")
+                for (auto& f : frames)
+                    out << "F " << hex(f) << "\n";
             out << "Q " << frames.size() << " " << enc->getSequenceCounter() << "\n";
         }
         else if (op == "DNEW")
             dec[N(0)] = std::make_unique<Decoder>();
         else if (op == "DFEED")
             feed(N(0), B(0));
+        else if (op == "DCOPY")
+        {
+            if (dec.count(N(1)))
+                dec[N(0)] = std::make_unique<Decoder>(*dec[N(1)]);
+        }
         else if (op == "DFRAMES")
         {
             auto fr = frames;
@@ -741,9 +747,17 @@ struct World
                     break;
                 case kCm:
                 {
-                    auto sv = [&](size_t i) { return std::string_view(reinterpret_cast<const char*>(B(i).data()), B(i).size()); };
-                    // strings are handed over as exact-size copies
-                    std::string s0(sv(0)), s1(sv(1)), s2(sv(2)), s3(sv(3));
+                    // strings are handed over as views over exact-size heap blocks WITHOUT a terminator behind them (a string_view
+                    // promises none): reading data()[size()] is a heap-buffer-overflow under ASan
+                    std::vector<std::unique_ptr<char[]>> keep;
+                    auto sv = [&](size_t i) {
+                        const Bytes& src = B(i);
+                        keep.emplace_back(new char[src.size() ? src.size() : 1]);
+                        if (src.size())
+                            memcpy(keep.back().get(), src.data(), src.size());
+                        return std::string_view(keep.back().get(), src.size());
+                    };
+                    std::string_view s0 = sv(0), s1 = sv(1), s2 = sv(2), s3 = sv(3);
                     static_cast<CaptureModulePayload*>(b)->setData(s0, s1, s2, s3, B(4));
                     break;
                 }
@@ -810,6 +824,15 @@ struct World
             p.setCommonFlags(static_cast<uint8_t>(p.getCommonFlags() ^ 1));
             if (p.payload && p.payload->getLength())
                 p.payload->payloadData[0] ^= 0xFF;
+        }
+        else if (op == "XTYPE")
+        {
+            Packet& p = pk[N(0)];
+            if (p.payload)
+            {
+                p.payload->setMessageType(static_cast<CmpHeader::MessageType>(N(1) & 255));
+                p.payload->setRawPayloadType(static_cast<uint8_t>(N(2)));
+            }
         }
         else if (op == "YCOPY")
         {
